@@ -381,6 +381,20 @@ class GroupTrigger(Monitor):
             # submission command only starts now
             trig['had_job'][m] = True
             return
+        if num == base and m not in trig['live'] and \
+                not trig['had_job'][m] and not trig['subs'].get(m):
+            # the member was in job preparation when the trigger removed it
+            # (to run it again from scratch), yet the submission of that
+            # abandoned job is carried out afterwards
+            trig['had_job'][m] = True
+            self.bad.append(self.viol(
+                'removed-preparing-member-job-still-submitted',
+                f'{p}/{n} was preparing job #{num} when the trigger of '
+                f'{trig["members"]} (flow={trig["flow"]}) removed it to run '
+                'it again; the job submission command of the abandoned job '
+                'is executed nevertheless, so the member is submitted twice '
+                'after one trigger'))
+            return
         # (cylc may reuse a submit number after removing a member from the
         # flow: every jobs-submit after the trigger is a submission)
         subs = trig['subs'].setdefault(m, [])
@@ -503,6 +517,27 @@ class GroupTrigger(Monitor):
         COUNTS.bump(f'terminal:{kind}')
         COUNTS.flush()
         return out
+
+
+def prep_window_members(w: World, ref: RefGraph, tids) -> List[Inst]:
+    """Members the trigger would remove (they have in-group prerequisites)
+    while their job submission command is queued but not yet started."""
+    members = {parse_inst(t) for t in tids}
+    out = []
+    pool = w.schd.pool
+    for (t, p) in sorted(members):
+        it = pool._get_task_by_id(f'{p}/{t}')
+        if it is None or it.state.status != 'preparing':
+            continue
+        if (str(p), t, int(it.submit_num)) in w.env.jobs:
+            continue
+        inner = any(
+            (a[1], p + a[2]) in members and (a[1], p + a[2]) != (t, p)
+            for e in ref.exprs(t, p) for a in atoms(e)
+            if not ref.pre_start(a, p))
+        if inner:
+            out.append((t, p))
+    return out
 
 
 class TriggerProfile(OpProfile):
